@@ -27,7 +27,7 @@ func newEnv(seed int64) *Env {
 	return &Env{defs: map[string]Oct{}, objs: map[string]any{}, seed: seed}
 }
 
-var termTags = map[string]bool{"lit": true, "fill": true, "cat": true, "slice": true, "hmac": true, "cbc": true, "cbcdec": true,
+var termTags = map[string]bool{"dropend": true, "from": true, "lastn": true, "lit": true, "fill": true, "cat": true, "slice": true, "hmac": true, "cbc": true, "cbcdec": true,
 	"modexp": true, "lpad": true, "var": true, "ref": true, "xor1": true, "flip": true, "overwrite": true, "findexp": true, "rnd": true}
 
 func isTerm(v any) (J, bool) {
@@ -226,12 +226,31 @@ func (e *Env) evalTerm(v any) (Oct, error) {
 				return nil, err
 			}
 			return anyToOct(r)
-		case "flip": // x with bit k (0 = least significant) of 0-based octet i complemented
+		case "dropend", "from", "lastn": // x without its last n octets / x from offset off / the last n octets of x
+			x, err := sub("x")
+			if err != nil {
+				return nil, err
+			}
+			n := gi(m, "n")
+			if n < 0 || n > len(x) {
+				return nil, fmt.Errorf("%s %d of %d", m["t"], n, len(x))
+			}
+			switch m["t"] {
+			case "dropend":
+				return octOf(x[:len(x)-n]), nil
+			case "from":
+				return octOf(x[n:]), nil
+			}
+			return octOf(x[len(x)-n:]), nil
+		case "flip": // x with bit k (0 = least significant) of 0-based octet i complemented (i < 0: counted from the end)
 			x, err := sub("x")
 			if err != nil {
 				return nil, err
 			}
 			i, k := gi(m, "i"), gi(m, "k")
+			if i < 0 {
+				i += len(x)
+			}
 			if i < 0 || i >= len(x) {
 				return nil, fmt.Errorf("flip octet %d of %d", i, len(x))
 			}
